@@ -20,9 +20,11 @@ var propIncludes = map[string][]inc{
 		{"C16", map[string]func(string) bool{"C16-R1": nil, "C16-R2": nil, "C16-R3": prefix("header@NextPosition"), "C16-R4": prefix("layout@Rotate", "endian@Rotate")}},
 	},
 	"C04": {{"C07", map[string]func(string) bool{"C07-R3": resumeArgs}}},
+	// a decode failure can be reported only if the decode is attempted: every format description is decoded (C16-R6)
+	"C06": {{"C16", rules("C16-R6")}},
 	"C08": {{"C02", rules("C02-R4")}},
 	"C09": {{"C15", rules("C15-R1", "C15-R3", "C15-R5")}, {"C08", rules("C08-R1")}, {"C16", rules("C16-R1", "C16-R6")}},
-	"C10": append(chain(typesC10), inc{"C15", rules("C15-R2")}),
+	"C10": append(chain(typesC10)[:3:3], inc{"C15", rules("C15-R2")}), // C10-R4 is its own rule
 	"C11": chain(typesC11),
 	"C12": chain(typesC12),
 	"C13": chain(typesC13),
@@ -45,6 +47,19 @@ func chain(types []string) []inc {
 		{"C15", map[string]func(string) bool{"C15-R1": nil, "C15-R3": nil, "C15-R5": metaTypes(types...)}},
 		{"C09", map[string]func(string) bool{"C09-R2": cellTypes(types...), "C09-R3": nil, "C09-R4": nil, "C09-R5": nil, "C09-R7": nil}},
 		{"C08", rules("C08-R1", "C08-R2")},
+		{"C10", map[string]func(string) bool{"C10-R4": flagTypes(types...)}},
+	}
+}
+
+// flagTypes selects the instances of C10-R4 (no use of the unsigned flag) of the given column types.
+func flagTypes(names ...string) func(string) bool {
+	return func(key string) bool {
+		for _, n := range names {
+			if key == "flag-scope@"+n {
+				return true
+			}
+		}
+		return false
 	}
 }
 
